@@ -193,7 +193,10 @@ impl SearchFilters {
         let mut bytes = Vec::new();
 
         if !filters.is_empty() {
+            // Each part is a backslash prefixed token like the rest of the filter: \nand\<count>
+            bytes.extend(b"\\");
             bytes.extend(name.as_bytes());
+            bytes.extend(b"\\");
             bytes.extend(filters.len().to_string().as_bytes());
             for filter in filters.values() {
                 bytes.extend(filter.to_bytes());
